@@ -89,9 +89,14 @@ Definition hit_ok (log : list commit) (k : kind) (hash : string) (sz s cid flen 
   (k = CAS /\ hash = emptySha256 /\ sz <= 0 /\ s = 0 /\ cid = 0 /\ flen = 0)
   \/ In (lookup_key k hash, cid, s, flen) log.
 
+(* an acknowledged upload is the empty-blob shortcut or a logged commit of its key and content *)
+Definition ack_logged (log : list commit) (k : kind) (hash : string) (sz : Z) (st : stream) : Prop :=
+  (k = CAS /\ sz = 0 /\ hash = emptySha256) \/ exists od, In (lookup_key k hash, st_cid st, sz, od) log.
+
 Definition resp_ok (log : list commit) (req : request) (r : response) : Prop :=
   match req with
   | RGet k hash sz _ _ _ _ => match r with GetHit s cid flen => hit_ok log k hash sz s cid flen | _ => True end
+  | RPut k hash sz st _ => match r with PutOk => ack_logged log k hash sz st | _ => True end
   | _ => True
   end.
 
@@ -119,6 +124,15 @@ Definition val_ok (c : cfg) (fs : list file) (X : list xcommit) (t : thread) : P
       | RGet k hash sz off zstd b rnd =>
           In (lookup_key k hash, f_cid f, size v, f_len f) (map snd X)
           /\ (kind_eqb k CAS = false -> size v = f_len f)
+          /\ f_complete f = true
+          /\ (kind_eqb k CAS = true -> legacy v = false -> f_logical f = size v)
+      | _ => True end
+  | GetDrop v id =>
+      (* the guarded drop is reached only when a compressed CAS entry's logical size is neither
+         unknown to the reader nor the size it asked for *)
+      match t_req t with
+      | RGet k hash sz off zstd b rnd =>
+          kind_eqb k CAS = true /\ legacy v = false /\ sz <> -1 /\ sz <> size v
       | _ => True end
   | GetCommit cl od f =>
       match t_req t with
@@ -152,8 +166,9 @@ Record ConcInv (c : cfg) (s : sys) (X : list xcommit) (M : list path) : Prop := 
 
 Lemma resp_ok_mono log log' req r : incl log log' -> resp_ok log req r -> resp_ok log' req r.
 Proof.
-  intros Hi. unfold resp_ok, hit_ok. destruct req; auto. destruct r; auto.
-  intros [H|H]; [left; exact H|right; apply Hi; exact H].
+  intros Hi. unfold resp_ok, hit_ok, ack_logged. destruct req; auto; destruct r; auto.
+  - intros [H|[od H]]; [left; exact H|right; exists od; apply Hi; exact H].
+  - intros [H|H]; [left; exact H|right; apply Hi; exact H].
 Qed.
 
 Lemma val_ok_frame c fs fs' X X' t :
